@@ -3,8 +3,8 @@
 # writes /verif/seeded/matrix.tsv and fills "detected_by" in each meta.json.  Sequential: every check uses all cores.
 cd /verif
 out=/verif/seeded/matrix.tsv; : > $out
-extra() { case "$1" in C03-b) echo C17;; C17-b) echo C01;; C10-b) echo C09;; C15-a) echo C04;; esac; }
-for d in seeded/C*-[ab]; do
+extra() { case "$1" in C03-b) echo C17;; C17-b) echo C01;; C10-b) echo C09;; C15-a) echo C04;; C01-c) echo C17;; C14-c) echo C01 C03;; C08-c) echo C18;; C03-c) echo C17 C01;; esac; }
+for d in seeded/C*-[a-z]; do
   s=$(basename $d); own=${s%-*}
   for chk in $own $(extra $s); do
     line=$(tools/seed_matrix.sh $s $chk 2>&1 | tail -1)
@@ -20,7 +20,7 @@ for l in open('/verif/seeded/matrix.tsv'):
     s,chk,rc,n,first=l.rstrip('\n').split('\t')
     if rc=='1' and int(n)>0: det[s].append(chk)
 import glob,os
-for d in sorted(glob.glob('/verif/seeded/C*-[ab]')):
+for d in sorted(glob.glob("/verif/seeded/C*-[a-z]")):
     m=os.path.join(d,'meta.json'); j=json.load(open(m)); j['detected_by']=det.get(os.path.basename(d),[]); json.dump(j,open(m,'w'),indent=1)
 print({k:v for k,v in det.items()})
 EOP
